@@ -186,6 +186,14 @@ def eval_path(case):
     if refused:
         return ["relative path %r refused by Checksums.add" % s]
     key = "/".join(norm)
+    # another tree of the same process that never read a file and never recorded anything: its table is its own
+    other = samples.treeinfo(0)
+    if other.checksums.checksums:
+        return ["Checksums.add(%r) on one tree shows in another tree of the same process: %s" % (s, dict(other.checksums.checksums))]
+    try:
+        other.checksums.add(s.lstrip("/") if not inside else "elsewhere/f", "md5", checksum_value="0" * 32)
+    except Exception:
+        pass
     if list(t.checksums.checksums) != [key]:
         fails.append("Checksums.add(%r) recorded under %r, normalised path is %r" % (s, list(t.checksums.checksums), key))
         return fails
@@ -262,6 +270,8 @@ def eval_section(case):
     from productmd.treeinfo import TreeInfo
     base = samples.treeinfo(0).dumps()
     ini = K.Ini(base)
+    if ini.p.has_section("checksums"):
+        return ["a tree whose checksum table was never touched is written with a [checksums] section: %s" % dict(ini.p.items("checksums"))]
     ini.p.add_section("checksums")
     exp = {}
     for i, kind in enumerate(case["sec"]):
@@ -330,6 +340,15 @@ def eval_section(case):
         gota = {k: tuple(v) for k, v in tt.checksums.checksums.items()}
         if gota != exp2:
             return ["%s plus three spellings of images/p1.img with digests of their own: %s %s, the file says %s" % (what, label, gota, exp2)]
+        if hasattr(type(tt.checksums), "__getitem__"):
+            # looked up one by one under the spelling of the file
+            for k_, v_ in exp2.items():
+                try:
+                    one = tuple(tt.checksums[k_])
+                except Exception as exc:
+                    return ["%s plus three spellings: %s, checksums[%r] raised %s: %s" % (what, label, k_, type(exc).__name__, exc)]
+                if one != v_:
+                    return ["%s plus three spellings: %s, checksums[%r] gives %s, the file says %s" % (what, label, k_, one, v_)]
     # the same file read by an object that read ANOTHER file before: every path maps to what THIS file says
     tr = TreeInfo()
     tr.loads(LEGACY)
